@@ -1,5 +1,6 @@
 """C17: spiftool_version_compare -- safety, determinism (stack contents, prior calls, three builds), reflexivity,
 antisymmetry on all strings; reference order (DESIGN A.7) on well-formed versions."""
+import shutil
 import vf
 
 FLAVORS = ('asan', 'asan-pat', 'asan-zero')
@@ -26,6 +27,15 @@ def run(chk):
     res = {}
     for f in FLAVORS:
         res[f] = chk.run(f, build(f), per)
+    if not chk.quick() and shutil.which('valgrind'):
+        # thorough tier: the same harness, uninstrumented, under valgrind memcheck -- any branch on an uninitialised byte
+        # (stale scratch buffers) is an error.  Smaller grid (strings <= 2) and 1/50 of the random cases.
+        Lm = 2
+        Em = sum(6 ** k for k in range(Lm + 1))
+        mc = chk.run('memcheck', build('plain'), (Em * Em + n - 1) // n + 600, args=['--L', str(Lm)],
+                     wrapper=['valgrind', '-q', '--error-exitcode=99', '--exit-on-first-error=yes', '--track-origins=yes'], timeout=3600)
+        chk.cov['memcheck_pairs'] = mc.cases
+        chk.assumptions.append('memcheck run: plain -O0 build under valgrind, all pairs of strings <= 2 plus sampled random pairs; a valgrind error appears as key C17:exit:99:*')
     chk.rule = ('case = one ordered pair (a, b): every pair of strings of length <= %d over {a,b,1,2,.,-} (%d pairs, enumerated completely) plus '
                 'random pairs of well-formed versions n(.n)*[word[n]], of strings with runs of 120..140 / 300..5000 letters, digits or punctuation, '
                 'of numeric extremes and of arbitrary bytes; each direction is evaluated 3 times after different stack fills and prior calls, plus '
